@@ -187,17 +187,38 @@ def run(ctx):
     if b is None:
         raise ModelError("anchor", "SIPrefix::from_exp has no body", where)
     ev_exp = T.Evaluator(U, keep_tags=False)
+    folded = None
     try:
         outs = ev_exp.summarize(b)
     except T.Unsupported as x:
-        raise ModelError("lookup", "SIPrefix::from_exp: unsupported construct %s" % x.what, x.sp or b["span"])
+        # no closed term (e.g. a hand-written loop over a constant table): the function is constant-folded at
+        # each of the 256 constant arguments instead (ctfe.py)
+        from . import ctfe
+        from fractions import Fraction
+        folded = {}
+        for v in range(-128, 128):
+            try:
+                folded[v] = ("val", ctfe.Ctfe(U, lambda path, variant: discr.get(variant) if path == SIP else None)
+                             .call_body(b, [("num", Fraction(v), "i8", str(v))]))
+            except ctfe.FoldPanic as pnc:
+                folded[v] = ("panic", str(pnc))
+            except ctfe.CannotFold as cf:
+                raise ModelError("lookup", "SIPrefix::from_exp: unsupported construct %s (and it cannot be constant-folded: %s)"
+                                 % (x.what, cf.what), cf.sp or x.sp or b["span"])
+        outs = None
+        ctx.extra["from_exp_decided_by"] = "constant folding at each of the 256 arguments"
     ie = intdom.IntEval(8, True)
     want_exp = {discr[v]: v for v in variants}
     n_none = 0
     for x in range(-128, 128):
         inst = "from_exp/%d" % x
         try:
-            k, t = ie.pick(outs, {0: x})
+            if folded is not None:
+                if folded[x][0] == "panic":
+                    raise intdom.Panic(folded[x][1])
+                k, t = folded[x]
+            else:
+                k, t = ie.pick(outs, {0: x})
         except intdom.Panic as pnc:
             ctx.fail("lookup-total", inst, "from_exp(%d) panics: %s" % (x, pnc), b["span"])
             continue
